@@ -103,6 +103,7 @@ func (*c18aWorld) Info() kernel.WorldInfo {
 			"races are detected on instrumented accesses to FeeQuotes/FeeQuote/Fee/FeeUnit fields and map contents (statement granularity); encoding/json, math/big and go-bk run atomically (no yield points inside)",
 			"consumer operations (Change / IsFeePaidEnough / EstimateFeesPaid on a task-private tx) take part in race detection but not in the linearizability history (they read two fee types in two critical sections)",
 			"porcupine Unknown (timeout) is counted, never reported",
+			"Expired() is not part of the linearizability model (the clock is not an object the quote guards): each answer must be explained by some expiry value the quote could have held during the call and some clock value shown during the call",
 		},
 		Real:        []string{"all of fees.go (instrumented copy)", "fee consumers in tx.go / txchange.go", "encoding/json (atomic)"},
 		Stub:        []string{"sync.RWMutex -> simrt.RWMutex (Go semantics incl. writer preference)", "time.Now -> simulated clock", "goroutine scheduling -> seeded cooperative scheduler"},
@@ -339,6 +340,39 @@ func (w *c18aWorld) Run(c *kernel.RunCtx) {
 			hs = append(hs, fmt.Sprintf("[%d..%d] client%d %s", op.Call, op.Return, op.ClientId, op.Input.(models.FQOp).Describe(op.Output.(models.FQOut))))
 		}
 		c.Sample(map[string]interface{}{"world": "c18a", "tasks": ntasks, "scheduler_policy": s.Policy, "scheduler_steps": s.Steps(), "history": hs})
+	}
+	// ---- quiescence: with every task finished the object's different views of itself must agree ----
+	for qi, q := range quotes {
+		e, x := q.Expiry(), q.Expired()
+		if want := e.Before(simrt.Now().UTC()); x != want {
+			c.Fail("views-disagree-at-quiescence", "Expired", "after all tasks finished, Q%d.Expiry() is %d and the clock shows %d, yet Q%d.Expired() answers %v", qi, e.UnixNano(), simrt.Now().UnixNano(), qi, x)
+			return
+		}
+		doc, err := q.MarshalJSON()
+		if err != nil {
+			continue
+		}
+		seen := parseFeeDoc(doc)
+		for _, ty := range types {
+			f, ferr := q.Fee(bt.FeeType(ty))
+			id := 0
+			if ferr == nil {
+				id = feeID(f, "harness:quiescence")
+			}
+			if id != seen[ty] {
+				c.Fail("views-disagree-at-quiescence", "Fee", "after all tasks finished, Q%d.Fee(%s) is fee#%d but MarshalJSON shows fee#%d", qi, ty, id, seen[ty])
+				return
+			}
+		}
+	}
+	// ---- expiry checks: each answer explained by a stored expiry and a clock value seen during the call ----
+	var ivs []models.Interval
+	for _, op := range history {
+		ivs = append(ivs, models.Interval{Call: op.Call, Ret: op.Return, In: op.Input.(models.FQOp), Out: op.Output.(models.FQOut)})
+	}
+	if msg := models.ExpiredExplained(ivs, simEpoch.UnixNano(), simEpoch.UnixNano()); msg != "" {
+		c.Fail("expired-unexplained", "", "%s", msg)
+		return
 	}
 	// ---- linearizability ----
 	model := porcupine.Model{
